@@ -41,6 +41,7 @@ import (
 	"github.com/anyproto/any-sync/net/rpc/encoding"
 	"github.com/anyproto/any-sync/net/secureservice"
 	hs "github.com/anyproto/any-sync/net/secureservice/handshake"
+	"github.com/anyproto/any-sync/net/secureservice/handshake/handshakeproto"
 	"github.com/anyproto/any-sync/util/cidutil"
 	"github.com/anyproto/any-sync/util/crypto"
 	"github.com/anyproto/any-sync/util/crypto/cryptoproto"
@@ -63,6 +64,9 @@ type target struct {
 	factor int      // allocation bound: factor*len(in) + slack
 	slack  int
 	nested bool // inputs are protobuf: use the structure-aware mutator
+	// isolate: run in a child process (the entry point can kill the process beyond recover():
+	// library-owned goroutines, fatal out-of-memory)
+	isolate bool
 	// model: optional line for the Lean model and the expected answer derived from the impl result
 	model func(in []byte, err error) (op, impl string)
 	sig   func(in []byte, what string) string // known-finding signature for a failing input
@@ -112,6 +116,8 @@ type world struct {
 	netKey  crypto.PrivKey
 	tmp     string
 	hangs   int // sequences stop being generated once a few of them wedged an object (each costs a guard)
+	child   *childProc
+	crashes int
 }
 
 func hexs(b []byte) string {
@@ -126,8 +132,26 @@ func hexs(b []byte) string {
 
 func (w *world) one(t *target, in []byte, gen string) {
 	r := w.r
-	o := execute(t, in)
 	op := fmt.Sprintf("%s %s", t.name, hexs(in))
+	var o outcome
+	if t.isolate && w.crashes >= 4 {
+		r.Count(t.name + ".skipped-after-crashes") // never run a crashing entry point in this process
+		return
+	}
+	if t.isolate {
+		var crash string
+		o, crash = w.executeIsolated(t, in)
+		if crash != "" {
+			w.crashes++
+			r.Count(t.name + ".crash")
+			r.Count("gen." + gen)
+			r.Violate("C11", "", t.name+".crash", fmt.Sprintf("the process died on a %d-byte input (%s): %s", len(in), gen, firstLine(crash)), []string{op})
+			r.Case(op, len(in) > 0)
+			return
+		}
+	} else {
+		o = execute(t, in)
+	}
 	cls := "ok"
 	switch {
 	case o.hung:
@@ -511,8 +535,11 @@ func (w *world) setup() {
 			case 1:
 				cc := secureservice.VerifNewPeerSignVerifier(1, []uint32{0, 1}, "v", w.keys)
 				_, err = hs.OutgoingHandshake(ctx, c, "peer", cc)
+			case 2:
+				_, err = hs.IncomingProtoHandshake(ctx, c, hs.ProtoChecker{AllowedProtoTypes: []handshakeproto.ProtoType{handshakeproto.ProtoType_DRPC},
+					SupportedEncodings: []handshakeproto.Encoding{handshakeproto.Encoding_Snappy}})
 			default:
-				_, err = hs.IncomingProtoHandshake(ctx, c, hs.ProtoChecker{})
+				_, err = hs.OutgoingProtoHandshake(ctx, c, &handshakeproto.Proto{Proto: handshakeproto.ProtoType_DRPC, Encodings: []handshakeproto.Encoding{handshakeproto.Encoding_Snappy}})
 			}
 			if c.maxReq > 200*1024+5 {
 				return fmt.Errorf("verif: read request of %d bytes", c.maxReq)
@@ -527,9 +554,16 @@ func (w *world) setup() {
 	}
 	credP := protowire.AppendVarint(protowire.AppendTag(nil, 3, protowire.VarintType), 1)
 	hsSeed := append(frame(1, credP), frame(2, nil)...)
-	for i, n := range []string{"handshake.incoming", "handshake.outgoing", "handshake.proto"} {
+	// every frame type as the FIRST frame of every handshake (cred / ack / proto / unknown), with a
+	// decodable payload, followed by the other types: a frame of the wrong kind where another is expected
+	protoP := []byte{8, 0, 16, 1}
+	wrongFirst := [][]byte{hsSeed, frame(3, protoP), frame(2, nil), frame(2, []byte{8, 0}), frame(2, []byte{8, 7}), frame(1, credP), frame(3, nil), frame(4, nil),
+		append(frame(2, nil), frame(3, protoP)...), append(frame(3, protoP), frame(2, nil)...), append(frame(2, nil), frame(2, nil)...),
+		append(frame(1, credP), frame(3, protoP)...), append(frame(3, protoP), frame(1, credP)...), append(frame(2, nil), hsSeed...)}
+	for i, n := range []string{"handshake.incoming", "handshake.outgoing", "handshake.proto", "handshake.proto.outgoing"} {
 		role := i
-		t := &target{name: n, factor: 8, slack: 1 << 20, seeds: [][]byte{hsSeed, frame(3, []byte{8, 0, 16, 1})}, run: hsRun(role)}
+		// isolated: the handshake wrappers run the protocol in a goroutine of their own; a panic there kills the process
+		t := &target{name: n, factor: 8, slack: 1 << 20, seeds: wrongFirst, run: hsRun(role), isolate: true}
 		w.add(t)
 	}
 
@@ -772,7 +806,8 @@ func (w *world) setup() {
 		d.Set(ldiff.Element{Id: fmt.Sprintf("id%d", i), Head: fmt.Sprintf("h%d", i)})
 	}
 	hsReq := &spacesyncproto.HeadSyncRequest{SpaceId: "space1", Ranges: []*spacesyncproto.HeadSyncRange{{From: 0, To: math.MaxUint64, Limit: 2}, {From: 5, To: 4, Elements: true}, {From: math.MaxUint64, To: 0}}}
-	w.add(&target{name: "headsync.range-request", factor: 4096, slack: 1 << 20, nested: true,
+	// isolated: a peer-sized allocation may end in a fatal out-of-memory
+	w.add(&target{name: "headsync.range-request", factor: 4096, slack: 1 << 20, nested: true, isolate: true,
 		seeds: [][]byte{must(hsReq.MarshalVT())},
 		run: func(in []byte) error {
 			req := &spacesyncproto.HeadSyncRequest{}
@@ -899,6 +934,7 @@ func Run(r *corr.Run) {
 	w := &world{r: r}
 	w.setup()
 	defer os.RemoveAll(w.tmp)
+	defer func() { w.child.stop() }()
 
 	// (a) boundaries: every prefix length of every seed up to 80 bytes, plus lengths around it with zero / 0xff fill
 	for _, t := range w.targets {
@@ -907,6 +943,9 @@ func Run(r *corr.Run) {
 			lim := min(len(s), 80)
 			if heavy {
 				lim = min(len(s), 6)
+			}
+			if si >= 3 && t.isolate {
+				lim = -1 // further seeds of isolated targets: the whole input only (each call is a round trip to the child)
 			}
 			for n := 0; n <= lim; n++ {
 				w.one(t, append([]byte{}, s[:n]...), "prefix")
@@ -952,7 +991,7 @@ func Run(r *corr.Run) {
 		var cases [][]rg
 		for _, base := range []uint64{0, 1, 5, 1 << 32, 1 << 63, maxU - 3, maxU - 1, maxU} {
 			for _, wdt := range []uint64{0, 1, 2, 3, 4, 5} { // narrower than, equal to and just above df
-				for _, lim := range []uint32{0, 1, math.MaxUint32} {
+				for _, lim := range []uint32{0, 1, 1 << 16, 1 << 20, 1 << 24, 1 << 28, math.MaxUint32} { // allocation must not follow the peer's Limit
 					cases = append(cases, []rg{{base, base + wdt, lim, false}, {base, base + wdt, lim, true}})
 				}
 			}
@@ -1032,6 +1071,9 @@ func Run(r *corr.Run) {
 	for k := 1; k <= 12 && w.hangs < 3; k++ { // refused-by-the-validator batches, then valid changes / local writes
 		w.verifTreeSequence(tf, k, k%3 == 0)
 	}
+	for k := 1; k <= 22 && w.hangs < 3; k++ { // every malformed identity in a read key change / account remove, then a good rotation
+		w.aclClientSequence(k)
+	}
 	ps := w.newPsWorld()
 	for k := 1; k <= 7 && w.hangs < 3; k++ {
 		w.pubsubSequence(ps, k)
@@ -1045,8 +1087,10 @@ func Run(r *corr.Run) {
 			w.treeSequence(tf, 0, r.Chance(50))
 		case k < 13:
 			w.verifTreeSequence(tf, 0, r.Chance(50))
-		case k < 15:
+		case k < 14:
 			w.aclSequence()
+		case k < 15:
+			w.aclClientSequence(0)
 		case k < 18:
 			w.pubsubSequence(ps, 0)
 		default:
